@@ -961,8 +961,14 @@ def decimal_tie_game(rng, kind=None):
     import math
     kind = kind or rng.choice([P1, P2])
     lose, win = 3, 4
-    if rng.random() < 0.5:
+    r_ = rng.random()
+    if r_ < 0.35:
         rows = [[(Fr(3, 10), win), (Fr(7, 10), lose)], [(Fr(1, 10), win), (Fr(2, 10), win), (Fr(7, 10), lose)]]
+    elif r_ < 0.7:
+        # an exact tie at an odd multiple of half a unit of the sixth decimal, reached through different float sums
+        k1, k2 = rng.choice([(14, 21), (6, 9), (22, 33), (10, 25)])
+        t = Fr(k1 + k2, 10 ** 7)
+        rows = [[(t, win), (1 - t, lose)], [(Fr(k1, 10 ** 7), win), (Fr(k2, 10 ** 7), win), (1 - t, lose)]]
     else:
         a = Fr(1, 128)
         b = Fr(math.nextafter(1 / 128, 0))
